@@ -115,6 +115,35 @@ def _summarize(interp, thunk, bound=(), pure=True):
     return outcomes
 
 
+def ident(v):
+    """Hashable identity of an interpreter value (for memo keys)."""
+    from .core import tid
+    from .values import HDict, HList, HSet
+    if isinstance(v, SVal):
+        return ("t", tid(v.t))
+    if isinstance(v, HDict):
+        if v.mode == "s":
+            return ("ds", tid(v.vals), tid(v.n))
+        return ("dc", v.oid, tuple((k, ident(x)) for k, x in v.py.items()))
+    if isinstance(v, HList):
+        if v.mode == "s":
+            return ("ls", tid(v.seq))
+        return ("lc", v.oid, tuple(ident(x) for x in v.items))
+    if isinstance(v, HSet):
+        if v.mode == "s":
+            return ("ss", tid(v.pred))
+        return ("sc", v.oid, tuple(ident(x) for x in v.elems))
+    if isinstance(v, tuple):
+        return ("tu",) + tuple(ident(x) for x in v)
+    if hasattr(v, "oid"):
+        return ("o", v.oid)
+    try:
+        hash(v)
+        return ("v", v)
+    except TypeError:
+        return ("i", id(v))
+
+
 def disj(conds):
     conds = [c for c in conds]
     if not conds:
@@ -129,17 +158,7 @@ def merged_call(interp, clo, args, kwargs):
     return (result terms merged with ite) and one per raised exception class."""
     ctx = interp.ctx
     try:
-        def _ident(v):
-            from .core import tid
-            if isinstance(v, SVal):
-                return ("t", tid(v.t))
-            if hasattr(v, "oid"):
-                return ("o", v.oid)
-            try:
-                hash(v)
-                return ("v", v)
-            except TypeError:
-                return ("i", id(v))
+        _ident = ident
         akey = tuple(_ident(a) for a in args) + tuple((k, _ident(v)) for k, v in sorted(kwargs.items())) if isinstance(kwargs, dict) else ()
         outs = summarize(interp, lambda: interp.run_closure(clo, args, kwargs), site=("merged", clo.qualname, akey))
     except Unsupported as u:
